@@ -79,8 +79,22 @@ class Sharing:
             if n['k'] == 'decl':
                 for v in n['v']:
                     init = unwrap(v.get('init')) if v.get('init') is not None else None
-                    if init is not None and init['k'] == 'call' and (init.get('f') or '').split('::')[-1] in THREAD_ID_FUNCS:
+                    if init is not None and self.is_tid_call(init):
                         self.tid_vars.add(v['d'])
+
+    def is_tid_call(self, e, depth=0):
+        """omp_get_thread_num(), or a call of a parameterless helper every return of which is such a call"""
+        e = unwrap(e)
+        if e is None or e['k'] != 'call':
+            return False
+        if (e.get('f') or '').split('::')[-1] in THREAD_ID_FUNCS:
+            return True
+        if 'fd' in e and not e.get('a') and depth < 3:
+            g = self.f.unit.by_id.get(e['fd'])
+            if g is not None and g.body is not None:
+                rets = g.returns()
+                return bool(rets) and all(self.is_tid_call(r['e'], depth + 1) for r in rets)
+        return False
 
     # ---- classification of index expressions
     def is_private(self, d):
@@ -102,7 +116,7 @@ class Sharing:
             if d in self.private:
                 return self.owned_private(d, depth + 1)
             return None
-        if k == 'call' and (e.get('f') or '').split('::')[-1] in THREAD_ID_FUNCS:
+        if self.is_tid_call(e):
             return 'thread number'
         if k == 'bin' and e['op'] in ('+', '-'):
             a, b = self.owned_expr(e['x'], depth + 1), self.owned_expr(e['y'], depth + 1)
